@@ -60,16 +60,26 @@ func (w *InformerWorker) Init() {
 		UpdateFunc: func(oldObj, newObj interface{}) {
 			w.handleUpdate(oldObj, newObj)
 		},
-		DeleteFunc: w.enqueueFlush,
+		DeleteFunc: w.handleDelete,
 	})
 }
 
 // handleAdd schedules JobConfigs that are created while the controller is running.
 // JobConfigs that exist before the schedule is initialized are loaded (and caught
-// up) by CronWorker.Init instead.
+// up) by CronWorker.Init instead, even if their add event is only handled later.
 func (w *InformerWorker) handleAdd(obj interface{}) {
 	if atomic.LoadUint32(&w.scheduleInitialized) == 0 {
 		return
+	}
+	if rjc, err := eventhandler.Executionv1alpha1JobConfig(obj); err == nil && w.takeLoadedConfig(rjc) {
+		return
+	}
+	w.enqueueFlush(obj)
+}
+
+func (w *InformerWorker) handleDelete(obj interface{}) {
+	if rjc, err := eventhandler.Executionv1alpha1JobConfig(obj); err == nil {
+		w.takeLoadedConfig(rjc)
 	}
 	w.enqueueFlush(obj)
 }
